@@ -35,6 +35,11 @@ def rand_case(rng):
                 if sz >= 4 and rng.random() < 0.5:
                     mod = ("xadd", sz, rng.randrange(-2 ** 31, 2 ** 31))
             ops.append(("lookup", k, rd, mod))
+        elif r < 0.5:
+            # a pointer obtained by a lookup is kept across an update of the same key and written through afterwards:
+            # the kernel installed a new element, the write goes to the old one and is not part of the map
+            sz = rng.choice([s for s in (1, 2, 4, 8) if s <= vs])
+            ops.append(("stale", k, bytes(rng.randrange(256) for _ in range(vs)), (sz, rng.randrange(-2 ** 31, 2 ** 31))))
         elif r < 0.8:
             ops.append(("update", k, bytes(rng.randrange(256) for _ in range(vs)), rng.choice([0, 0, 1, 2])))
         else:
@@ -58,6 +63,16 @@ def program(case, fd):
             v = op[2].ljust(16, b"\0")
             for q in range(4):
                 I.append((0x62, 10, 0, -24 + 4 * q, s32(int.from_bytes(v[4 * q:4 * q + 4], "little"))))
+        if op[0] == "stale":
+            v = op[2].ljust(16, b"\0")
+            for q in range(4):
+                I.append((0x62, 10, 0, -24 + 4 * q, s32(int.from_bytes(v[4 * q:4 * q + 4], "little"))))
+            sz, imm = op[3]
+            after = [(0x18, 1, 1, 0, fd), (0, 0, 0, 0, 0), (0xbf, 2, 10, 0, 0), (0x07, 2, 0, 0, -8), (0xbf, 3, 10, 0, 0), (0x07, 3, 0, 0, -24),
+                     (0xb7, 4, 0, 0, 0), (0x85, 0, 0, 0, 2), (0x7b, 6, 0, 8 * j, 0), (0x62 & ~0x18 | SZ_BITS[sz], 8, 0, 0, imm), (0x05, 0, 0, 1, 0)]
+            I += [(0x18, 1, 1, 0, fd), (0, 0, 0, 0, 0), (0xbf, 2, 10, 0, 0), (0x07, 2, 0, 0, -8), (0x85, 0, 0, 0, 1), (0xbf, 8, 0, 0, 0),
+                  (0x15, 8, 0, len(after), 0)] + after + [(0x7a, 6, 0, 8 * j, SLOT)]
+            continue
         I += [(0x18, 1, 1, 0, fd), (0, 0, 0, 0, 0), (0xbf, 2, 10, 0, 0), (0x07, 2, 0, 0, -8)]
         if op[0] == "update":
             I += [(0xbf, 3, 10, 0, 0), (0x07, 3, 0, 0, -24), (0xb7, 4, 0, 0, op[3]), (0x85, 0, 0, 0, 2), (0x7b, 6, 0, 8 * j, 0)]
